@@ -188,6 +188,9 @@ def main(argv=None):
     errors = []
     canaries_ok = True
     os.makedirs(os.path.join(ROOT, "replays"), exist_ok=True)
+    for fn in os.listdir(os.path.join(ROOT, "replays")):
+        if fn.startswith(prop + "-"):
+            os.remove(os.path.join(ROOT, "replays", fn))
     for ob in obligs:
         v = ob.verdict
         if ob.expect == be.REFUTED:
